@@ -416,6 +416,63 @@ def sendAll {p : Prims} (s : Sender p) : List (Op p) → Except Err (Sender p ×
   | .resetSeq :: ops => sendAll { s with seq := 0 } ops
   | .kexDone :: ops => sendAll { s with kexDone := true } ops
 
+/-! ## `write_all` over a socket whose `send` may accept only part, time out, or fail -/
+
+/-- what one `send(out)` call does -/
+inductive SendEv where
+  | accept (k : Nat)     -- returned `min k len(out)` (a short write when smaller than `len(out)`; 0 is possible)
+  | timeout              -- `socket.timeout`
+  | eagain               -- `socket.error` with `errno.EAGAIN`
+  | fail                 -- any other exception (e.g. broken pipe)
+  deriving Repr, DecidableEq
+
+inductive WRes where
+  | ok (written : Bytes)       -- `write_all` returned: these bytes were accepted by the socket, in order
+  | eof (written : Bytes)      -- `EOFError` after these bytes had been accepted
+  deriving Repr, DecidableEq
+
+/-- the `> 10` of `if n == 0 and iteration_with_zero_as_return_value > 10` -/
+def zeroLimit : Nat := 10
+
+/-- the `n = 0` the retry branch assigns after `socket.timeout` / `EAGAIN` -/
+def retryN : Nat := 0
+
+/-- the `while len(out) > 0` loop of `write_all`; `it` = `iteration_with_zero_as_return_value`, `w` = bytes the
+socket accepted so far.  When the schedule is used up every `send` accepts everything. -/
+def writeAll : (sched : List SendEv) → (out : Bytes) → (it : Nat) → (w : Bytes) → WRes
+  | _, [], _, w => .ok w
+  | [], x :: xs, _, w => .ok (w ++ x :: xs)
+  | ev :: t, x :: xs, it, w =>
+    match ev with
+    | .fail => .eof w
+    | .timeout => writeAll t ((x :: xs).drop retryN) it w      -- `n = 0; … out = out[n:]`
+    | .eagain => writeAll t ((x :: xs).drop retryN) it w
+    | .accept k =>
+      let n := min k (xs.length + 1)
+      if n = 0 ∧ it > zeroLimit then .eof w
+      else if n = xs.length + 1 then .ok (w ++ x :: xs)        -- `if n == len(out): break`
+      else writeAll t ((x :: xs).drop n) (it + 1) (w ++ (x :: xs).take n)
+
+/-- the sender over an op list, each packet going through `write_all` under its own schedule of `send` outcomes
+(schedules are consumed one per message; none left = every send accepts everything): the bytes that reached the
+socket, or `eof` as soon as a `write_all` raised -/
+def sendAllW {p : Prims} (s : Sender p) : List (Op p) → List (List SendEv) → Except Err (Sender p × Bytes)
+  | [], _ => .ok (s, [])
+  | .msg d rnd :: ops, scheds =>
+    match sendMessage s d rnd with
+    | .error e => .error e
+    | .ok o =>
+      match writeAll (scheds.headD []) o.wire 0 [] with
+      | .eof _ => .error .eof
+      | .ok wr =>
+        match sendAllW o.st ops scheds.tail with
+        | .error e => .error e
+        | .ok (s', w) => .ok (s', wr ++ w)
+  | .setCipher b m sd co _ :: ops, scheds => sendAllW (s.setCipher b m sd co) ops scheds
+  | .setComp zo _ :: ops, scheds => sendAllW { s with comp := zo } ops scheds
+  | .resetSeq :: ops, scheds => sendAllW { s with seq := 0 } ops scheds
+  | .kexDone :: ops, scheds => sendAllW { s with kexDone := true } ops scheds
+
 /-- result of running the receiver: delivered messages, verified records, how it stopped -/
 structure RecvLog (p : Prims) where
   msgs : List Msg
